@@ -168,6 +168,11 @@ def waitingOn (ps : PSet) (i : Nat) : Bool :=
   | .protoSends _ w _ => w.contains i
   | _ => false
 
+def waitingOnMgr (ps : PSet) : Bool :=
+  match ps.call with
+  | .mgrSend _ => true
+  | _ => false
+
 /-- The environment acts, then the suspended call is re-polled. -/
 def envStep (ps : PSet) : EnvOp → PSet
   | .recv i =>
@@ -186,10 +191,7 @@ def envStep (ps : PSet) : EnvOp → PSet
     | some c => { ps with chans := ps.chans.set i c.fillUp }
   | .recvMgr => progress { ps with mgr := ps.mgr.pop }
   | .dropMgr => progress { ps with mgr := ps.mgr.dropRx }
-  | .fillMgr =>
-    match ps.call with
-    | .mgrSend _ => ps
-    | _ => { ps with mgr := ps.mgr.fillUp }
+  | .fillMgr => if waitingOnMgr ps then ps else { ps with mgr := ps.mgr.fillUp }
 
 /-- Number of strong `ConnectionHandle`s in existence (inside undelivered `established` events or
 held by protocols); `try_get_permit` on the downgraded handle succeeds iff there is one. -/
